@@ -919,7 +919,7 @@ Proof.
   rewrite forallb_forall in H1, H2. split; apply Forall_forall; intros t Hin.
   - specialize (H1 t Hin). apply andb_prop in H1. destruct H1 as [Hh Ho]. split.
     + destruct (held t); [reflexivity|discriminate].
-    + exists [code t]. split; [simpl; rewrite app_nil_r; reflexivity|].
+    + exists [code t]. split; [unfold wthread; cbn [code map seg_code List.concat]; symmetry; apply app_nil_r|].
       apply Forall_cons; [exact Ho|apply Forall_nil].
   - specialize (H2 t Hin). intros sl u HinS. unfold spawns_okb in H2.
     rewrite forallb_forall in H2. specialize (H2 _ HinS). simpl in H2.
@@ -1607,10 +1607,13 @@ Qed.
     the only path of Ticker::stop is lock Stop, set the flag, unlock, notify; Ticker::drop is stop and
     then (if there is a handle) join; every path of every finish*/abandon* method ends with: release
     the bar state, lock the slot, (if a ticker is installed: stop it), unlock the slot *)
+Definition Ticker_stop_name : String.string := "Ticker::stop".
+Definition Ticker_drop_name : String.string := "Ticker::drop:drop".
+Definition ProgressBar_tick_name : String.string := "ProgressBar::tick".
 Theorem stop_protocol_paths :
-  (exists p, pg_lookup "Ticker::stop" all_programs = Some p /\
+  (exists p, pg_lookup Ticker_stop_name all_programs = Some p /\
      forall tr, paths p tr -> list_eqb caction_eqb tr stop_fp = true) /\
-  (exists p, pg_lookup "Ticker::drop:drop" all_programs = Some p /\
+  (exists p, pg_lookup Ticker_drop_name all_programs = Some p /\
      forall tr, paths p tr ->
        list_eqb caction_eqb tr (stop_fp ++ [CJoin]) || list_eqb caction_eqb tr stop_fp = true) /\
   (forall n, In n finish_names ->
@@ -1702,7 +1705,8 @@ Proof.
   intros name d sc sg H. unfold ex_seg in H.
   destruct (pg_lookup name all_programs) as [p|] eqn:E; [|discriminate].
   destruct (choose d p sc) as [[tr sc']|] eqn:C; [|discriminate]. injection H as <-.
-  simpl. split; [exists name; apply pg_lookup_In; exact E|eapply choose_sound; exact C].
+  change ((exists nm, In (nm, p) all_programs) /\ paths p tr).
+  split; [exists name; apply pg_lookup_In; exact E|eapply choose_sound; exact C].
 Qed.
 
 Lemma somes_ex_seg_ok : forall l : list (String.string * nat * list nat),
@@ -1738,8 +1742,9 @@ Proof.
   split.
   - apply Forall_cons; [|apply Forall_cons; [|apply Forall_nil]]; (split; [reflexivity|]).
     + exists wfp_segs. split; [reflexivity|apply somes_ex_seg_ok].
-    + exists [(ticker_prog, (0, 0, 1), wfp_ticker_path)]. split; [simpl; rewrite app_nil_r; reflexivity|].
-      apply Forall_cons; [|apply Forall_nil]. simpl. split; [|exact Ht].
+    + exists [(ticker_prog, (0, 0, 1), wfp_ticker_path)]. split; [unfold wthread; cbn [code map seg_code List.concat]; symmetry; apply app_nil_r|].
+      apply Forall_cons; [|apply Forall_nil].
+      change ((exists nm, In (nm, ticker_prog) all_programs) /\ paths ticker_prog wfp_ticker_path). split; [|exact Ht].
       exists "TickerControl::run"%string. apply (proj1 generated_ticker_prog).
   - apply Forall_cons; [|apply Forall_cons; [|apply Forall_nil]].
     + intros sl u Hin. assert (Hu : (sl, u) = (0, 1)).
@@ -1749,4 +1754,16 @@ Proof.
       apply (proj2 (ticker_paths_worker _ Ht 0 0 1)).
     + intros sl u Hin. exfalso. vm_compute in Hin.
       repeat (destruct Hin as [Hin|Hin]; [discriminate Hin|]). contradiction.
+Qed.
+
+Definition src_tick_inner_expected : String.string :=
+  "if self.ticker.lock().unwrap().is_none() { self.state().tick(now); }".
+Definition src_barstate_tick_expected : String.string :=
+  "self.state.tick = self.state.tick.saturating_add(1); self.update_estimate_and_draw(now);".
+Theorem tick_transcription :
+  (src_tick_inner = src_tick_inner_expected /\ src_barstate_tick = src_barstate_tick_expected) /\
+  (exists p, pg_lookup ProgressBar_tick_name all_programs = Some p /\ paths p [CAcq CSlot; CRel CSlot]) /\
+  (forall name p, In (name, p) all_programs -> forall tr, paths p tr -> tick_guarded tr = true).
+Proof.
+  split; [exact generated_tick_sources|]. split; [exact generated_tick_program|exact tick_under_bar_paths].
 Qed.
